@@ -293,6 +293,15 @@ def discharge(obls, procs=None, z3_ms=None, use_cvc5=True):
     if jobs:
         hard = (z3_ms * 7) // 3000 + CVC5_TIMEOUT_S + 10
         results = _run_jobs(jobs, procs, hard)
+        # second chance for undecided queries: fewer at a time, three times the budget (a verdict must not flip
+        # because the machine was busy)
+        again = [j for j in jobs if not j[4] and any(r["name"] == j[0] and r["result"] == "unknown" for r in results)]
+        if again:
+            big = z3_ms * 3
+            retry = _run_jobs([(j[0], j[1], big, j[3], j[4]) for j in again], max(2, procs // 4),
+                              (big * 7) // 3000 + CVC5_TIMEOUT_S + 10)
+            better = {r["name"]: r for r in retry if r["result"] != "unknown"}
+            results = [better.get(r["name"], r) for r in results]
         for r in results:
             ob, nparts = by_name[r["name"]]
             if nparts == 1:
